@@ -65,7 +65,7 @@ pub fn profile_for(prop: &str) -> Profile {
         "C01" => {
             p.name = "c01";
             p.w = [12, 10, 14, 12, 3, 3, 22, 2, 0, 2, 1, 4, 1, 2, 3, 1, 1, 1, 0, 3];
-            p.env = [4, 3, 8, 5, 0, 0, 0, 0];
+            p.env = [4, 3, 8, 5, 2, 0, 0, 0];
             p.forks = vec![("c01_order", 6)];
         }
         "C02" => {
@@ -76,18 +76,18 @@ pub fn profile_for(prop: &str) -> Profile {
         "C03" | "C04" => {
             p.name = "c03_c04";
             p.w = [14, 12, 10, 10, 8, 8, 8, 2, 0, 1, 2, 2, 1, 4, 8, 3, 2, 1, 0, 1];
-            p.env = [8, 6, 4, 3, 0, 0, 0, 1];
+            p.env = [8, 6, 4, 3, 2, 0, 0, 1];
         }
         "C05" => {
             p.name = "c05";
             p.w = [14, 8, 14, 6, 14, 12, 6, 1, 0, 1, 1, 2, 0, 3, 3, 1, 4, 1, 0, 0];
-            p.env = [3, 12, 3, 1, 0, 0, 0, 0];
+            p.env = [3, 12, 3, 1, 2, 0, 0, 0];
             p.slash_first = true;
         }
         "C06" => {
             p.name = "c06";
             p.w = [12, 12, 12, 12, 4, 4, 14, 1, 0, 1, 1, 2, 0, 8, 3, 2, 0, 1, 0, 1];
-            p.env = [2, 12, 12, 3, 0, 0, 0, 1];
+            p.env = [2, 12, 12, 3, 2, 0, 0, 1];
         }
         "C07" => {
             p.name = "c07";
@@ -97,7 +97,7 @@ pub fn profile_for(prop: &str) -> Profile {
         "C08" => {
             p.name = "c08";
             p.w = [10, 10, 16, 14, 2, 2, 20, 1, 0, 1, 0, 3, 0, 1, 2, 1, 3, 1, 0, 3];
-            p.env = [2, 2, 3, 2, 0, 0, 0, 0];
+            p.env = [2, 2, 3, 2, 2, 0, 0, 0];
             p.len = (40, 220);
         }
         "C09" => {
@@ -129,7 +129,7 @@ pub fn profile_for(prop: &str) -> Profile {
         "C14" | "C15" | "C16" => {
             p.name = "c14_c16";
             p.w = [18, 4, 8, 2, 5, 5, 3, 10, 4, 6, 8, 3, 14, 1, 14, 1, 3, 1, 0, 0];
-            p.env = [16, 2, 1, 3, 0, 0, 2, 0];
+            p.env = [16, 2, 1, 3, 2, 0, 2, 0];
             p.forks = vec![("c15_split", 3), ("c15_relational", 3)];
         }
         "C17" | "C19" => {
@@ -868,6 +868,12 @@ impl Gen {
             4 => {
                 let vals: Vec<String> = sim.w.staking.validators.iter().cloned().collect();
                 let v = self.rng.pick(&vals).clone();
+                if self.rng.chance(1, 2) {
+                    // jailing: a validator drops out of (or returns to) the bonded set while it
+                    // keeps the hub's delegation
+                    let on = !sim.w.staking.jailed.contains(&v);
+                    return Some(EnvEv::Jail { validator: v, on });
+                }
                 let on = !sim.w.staking.redelegation_blocked.contains(&v);
                 Some(EnvEv::BlockRedelegation { validator: v, on })
             }
